@@ -94,6 +94,9 @@ type Ctx struct {
 	Notes            []string
 	Jobs             int
 	Extra            map[string]interface{}
+	ReplayOnly       *ReplayFile // replay mode: only run this saved input natively
+	ReplayPath       string
+	ReplayResult     *NativeResult
 	progs            map[string]*loaded
 	bins             map[string]string
 }
@@ -171,6 +174,19 @@ func allowed(msg string, allow []string) bool {
 func (c *Ctx) RunJobs(jobs []Job, workers int) {
 	if workers < 1 {
 		workers = 1
+	}
+	if c.ReplayOnly != nil {
+		for _, j := range jobs {
+			if j.Name == c.ReplayOnly.Job {
+				nr, err := c.nativeRun(j, c.ReplayPath)
+				if err != nil {
+					fmt.Println("native replay failed:", err)
+					return
+				}
+				c.ReplayResult = nr
+			}
+		}
+		return
 	}
 	// load programs up front (sequentially: go list is not happy in parallel on a cold cache)
 	for i := range jobs {
@@ -300,7 +316,7 @@ func sanitize(s string) string {
 }
 
 func (c *Ctx) writeReplay(j Job, e *engine.Engine, o engine.Outcome, sub string) (string, ReplayFile) {
-	rf := ReplayFile{Harness: j.Run.Harness, Target: j.Target.PkgPath, Values: e.ModelValues(o.Res.Model), Params: j.Run.Params, UF: e.UFTables(o.Res.Model), Note: fmt.Sprintf("%s %s: %s (%s)", j.Name, o.Ob.Kind, o.Ob.Rec.Msg, o.Ob.Rec.Pos)}
+	rf := ReplayFile{Check: c.ID, Job: j.Name, Harness: j.Run.Harness, Target: j.Target.PkgPath, Values: e.ModelValues(o.Res.Model), Params: j.Run.Params, UF: e.UFTables(o.Res.Model), Note: fmt.Sprintf("%s %s: %s (%s)", j.Name, o.Ob.Kind, o.Ob.Rec.Msg, o.Ob.Rec.Pos)}
 	p := filepath.Join(VerifRoot, "replays", c.ID, sub, sanitize(j.Name)+"-"+o.Ob.Name+".json")
 	WriteReplay(p, rf)
 	return p, rf
